@@ -59,6 +59,10 @@ func c11Setup(state string) (string, uint64, []fsx.Op) {
 		// the inode table exhausted but for two numbers (prepared state: 32765 files), objects in recycled inodes
 		return "inofull", 4000, []fsx.Op{{K: "REMOVE", H: "root/bulk", N: "f00000"}, {K: "REMOVE", H: "root/bulk", N: "f16000"}, {K: "REMOVE", H: "root/bulk", N: "f32700"},
 			{K: "CREATE", H: "root", N: "gone"}, {K: "REMOVE", H: "root", N: "gone"}, {K: "SYMLINK", H: "root", N: "s", Target: "a"}}
+	case "moveddir":
+		// a directory that was moved into another parent (link counts and ".." of the parents), next to the usual objects
+		return "", 3000, append(pop, fsx.Op{K: "MKDIR", H: "root", N: "e"}, fsx.Op{K: "MKDIR", H: "root/e", N: "m"}, fsx.Op{K: "CREATE", H: "root/e/m", N: "y"},
+			fsx.Op{K: "RENAME", H: "root/e", N: "m", H2: "root/d", N2: "m"}, fsx.Op{K: "REMOVE", H: "root/d/m", N: "y"})
 	case "maxsparse":
 		return "", 3000, append(pop, fsx.Op{K: "CREATE", H: "root", N: "huge"}, fsx.Op{K: "SETATTR", H: "root/huge", Size: maxFile}, fsx.Op{K: "WRITE", H: "root/huge", Off: maxFile - 1, Cnt: 1, Pat: 0x62, Stable: 2})
 	case "tinyfull":
@@ -66,6 +70,8 @@ func c11Setup(state string) (string, uint64, []fsx.Op) {
 	}
 	return "", 3000, nil
 }
+
+const c11NHandles = 18
 
 func c11Handles(w *World) [][]byte {
 	raw := func(ino, gen uint64) []byte {
@@ -79,14 +85,17 @@ func c11Handles(w *World) [][]byte {
 	get := func(v string) []byte { h, _ := w.Vars.Resolve(v); return h }
 	long := make([]byte, 64)
 	copy(long, get("root/a"))
+	longd := make([]byte, 64)
+	copy(longd, get("root/d"))
 	return [][]byte{
 		{}, {1, 2, 3}, make([]byte, 8), make([]byte, 15), get("root"), get("root/a"), get("root/d"), get("dead:root/gone"), get("root/s"),
 		raw(0, 0), raw(1<<64-1, 1), raw(40000, 1), raw(500, 1), raw(2, 99), append(append([]byte{}, get("root/a")...), 0), long,
+		append(append([]byte{}, get("root/d")...), 7), longd, // a directory's handle with trailing bytes
 	}
 }
 
-var c11Names = []string{"", ".", "..", "a", "d", "new", nameOfLen(111, 'l'), nameOfLen(112, 'l'), nameOfLen(113, 'l'), nameOfLen(255, 'l'), nameOfLen(256, 'l'), nameOfLen(4096, 'l')}
-var c11NamesShort = []string{"", ".", "..", "a", "d", "x", "new", nameOfLen(112, 'l'), nameOfLen(300, 'l')}
+var c11Names = []string{"", ".", "..", "a", "d", "m", "new", nameOfLen(111, 'l'), nameOfLen(112, 'l'), nameOfLen(113, 'l'), nameOfLen(255, 'l'), nameOfLen(256, 'l'), nameOfLen(4096, 'l')}
+var c11NamesShort = []string{"", ".", "..", "a", "d", "x", "m", "new", nameOfLen(112, 'l'), nameOfLen(300, 'l')}
 var c11BaseOffsets = []uint64{0, 1, 4095, 4096, 1 << 32, maxFile - 1, maxFile, 1 << 63, 1<<64 - 4096, 1<<64 - 10, 1<<64 - 1}
 var c11Offsets = c11BaseOffsets
 
@@ -226,6 +235,17 @@ func c11Sanity(w *World, n int) string {
 	}
 	if _, err := fsx.ListDir(w.Srv, root); err != nil {
 		return "listing the root: " + err.Error()
+	}
+	// the directories of the state answer too (if they still exist)
+	for _, dn := range []string{"d", "e"} {
+		if dl := fsx.Exec(w.Srv, fsx.Op{K: "LOOKUP", N: dn}, root, nil); dl.OK() && dl.Attr != nil && dl.Attr.Type == 2 {
+			if g := fsx.Exec(w.Srv, fsx.Op{K: "GETATTR"}, dl.FH, nil); !g.OK() {
+				return fmt.Sprintf("GETATTR of directory %s: status %d", dn, g.Status)
+			}
+			if _, err := fsx.ListDir(w.Srv, dl.FH); err != nil {
+				return "listing " + dn + ": " + err.Error()
+			}
+		}
 	}
 	return ""
 }
@@ -502,13 +522,13 @@ func init() {
 }
 
 func C11(r *report.Report, tier string) {
-	states := []string{"populated", "tinyfull", "maxsparse", "inodes"}
-	r.Rule = "structural: per procedure the full product of boundary domains - 16 handles (empty, 3/8/15 bytes, root, file, directory, symlink, dead, inode 0 / 2^64-1 / beyond the table / free / wrong generation, 17 and 64 bytes), 12 names (empty, ., .., existing, new, 111/112/113/255/256/4096 bytes), 11 offsets/sizes up to 2^64-1, counts {0,1,4096,wtmax-1,wtmax,wtmax+1,2^32-1} with data lengths that agree and disagree, cookies, dircount/maxcount, stability and create modes incl. illegal ones; RENAME/LINK over all pairs of handles; in the states populated (objects in recycled inodes) / tiny full disk / maximal sparse file / inode table exhausted but for two numbers (32765 files); bytes: for one valid request per procedure (22 NFS + 6 MOUNT) every truncation, an extension, and every substitution of each 32-bit word by {0,1,2,3,63,64,65,0x7fffffff,0xffffffff}, decoded and executed through the registered rpcgen handlers; every call and every mutated message meets the named state on a fresh server instance (snapshot; once just started with cold caches, and - quick: populated state, thorough: all states - once after lookups, reads and listings have filled the inode and name caches) under the controlled scheduler: a reply (or a decode rejection) must arrive - no panic, no deadlock, no runaway (400000 scheduling points per request) - and the sanity script (create, write, read back, lookup, remove, list) must succeed on the same instance afterwards. distinct_nontrivial = distinct (procedure, status) pairs"
+	states := []string{"populated", "tinyfull", "maxsparse", "inodes", "moveddir"}
+	r.Rule = "structural: per procedure the full product of boundary domains - 18 handles (empty, 3/8/15 bytes, root, file, directory, symlink, dead, inode 0 / 2^64-1 / beyond the table / free / wrong generation, a file's and a directory's handle extended to 17 and 64 bytes), 13 names (empty, ., .., existing, new, 111/112/113/255/256/4096 bytes), 11 offsets/sizes up to 2^64-1, counts {0,1,4096,wtmax-1,wtmax,wtmax+1,2^32-1} with data lengths that agree and disagree, cookies, dircount/maxcount, stability and create modes incl. illegal ones; RENAME/LINK over all pairs of handles; in the states populated (objects in recycled inodes) / tiny full disk / maximal sparse file / inode table exhausted but for two numbers (32765 files) / a directory moved into another parent; bytes: for one valid request per procedure (22 NFS + 6 MOUNT) every truncation, an extension, and every substitution of each 32-bit word by {0,1,2,3,63,64,65,0x7fffffff,0xffffffff}, decoded and executed through the registered rpcgen handlers; every call and every mutated message meets the named state on a fresh server instance (snapshot; once just started with cold caches, and - quick: populated state, thorough: all states - once after lookups, reads and listings have filled the inode and name caches) under the controlled scheduler: a reply (or a decode rejection) must arrive - no panic, no deadlock, no runaway (400000 scheduling points per request) - and the sanity script (create, write, read back, lookup, remove, list) must succeed on the same instance afterwards. distinct_nontrivial = distinct (procedure, status) pairs"
 	var jobs []interface{}
 	var descs []c11Arg
 	for _, st := range states {
 		for _, p := range c11Procs {
-			for hi := 0; hi < 16; hi++ {
+			for hi := 0; hi < c11NHandles; hi++ {
 				a := c11Arg{State: st, Proc: p, HIdx: hi}
 				if p == "NULL" && hi > 0 {
 					continue
